@@ -5,7 +5,7 @@
 import os, sys
 sys.path.insert(0, os.path.join(os.environ.get("AIOFTP_REPO", "/repo"), "src"))
 OBLIGATION = 'aioftp.common:Throttle.append::Throttle.append/post:cumulative-rate-invariant-preserved-with-half-byte-slack-per-reset'
-MODEL = {'th_limit!5': '3/1', 'th_sum!1': 0, 'th_reset_rate!0': '1/4', 'th_t0!2': '-5/4', 'th_B!3': 0, 'th_rho!4': '0/1', 'th_start!6': '-1/1', 'round!9': 1, 'data!7': '', 'io_start!8': '-1/2', 'len!10': 0}
+MODEL = {'th_limit!5': '13/1', 'th_start!6': '-1/1', 'th_reset_rate!0': '1/2', 'th_B!3': 0, 'th_sum!1': 1, 'th_rho!4': '0/1', 'th_t0!2': '-9/8', 'round!9': 1, 'data!7': '', 'io_start!8': '-1/4', 'len!10': 0}
 SOLVER_NOTE = ''
 
 print("obligation", OBLIGATION, "failed; no concrete failing input could be constructed automatically")
